@@ -207,3 +207,38 @@ Definition c11x_oracle (c : c11x_case) : option N :=
   | CX c => c11_oracle c
   | KWrapMetrics e steps final => c11_oracle (mk_c11 e (map (fun st => (fst st, fst (snd st))) steps) final)
   end.
+
+(* ---------- the decorator over a failing engine (case kind KWrapFault, kinds 0..3) ---------- *)
+
+(* an adapter whose one method (0 Get, 1 Del, 2 DelCurrent, 3 Commit) answers with class c and does nothing *)
+Definition faulty (A : adapter) (kind : N) (c : rclass) : adapter := {|
+  a_state := a_state A;
+  a_init := a_init A;
+  a_dump := a_dump A;
+  a_get := if kind =? 0 then (fun _ _ => (c, [])) else a_get A;
+  a_iter := a_iter A;
+  a_batch := if kind =? 3 then (fun s _ => (s, c, None)) else a_batch A;
+  a_del := if kind =? 1 then (fun s _ => (s, c)) else a_del A;
+  a_delcur := if kind =? 2 then (fun s _ => (s, c, None)) else a_delcur A;
+  a_nil_empty := a_nil_empty A
+|}.
+
+Definition fault_op (kind : N) : sop :=
+  if kind =? 0 then SGet [97] else if kind =? 1 then SDel [97] else if kind =? 2 then SDelCur else SBatch [BDel [97]].
+
+Definition obs_class (ob : obs) : rclass :=
+  match ob with
+  | OBatch c _ | OGet c _ | ODel c | OIter c _ | OHold c _ _ | ODelCur c _ | OHoldDrain c _ _ _ _ => c
+  end.
+
+(* the driver's wrapFault scenario on the decorator model: the record a=1 is written and an iterator held on it
+   through the decorator over a healthy memkv; the one call is made on the decorator over the failing engine, from the
+   same state; the record is read back through the healthy one *)
+Definition fault_model (kind : N) (c : rclass) : rclass * bool :=
+  let A := memkv in
+  let w1 := fst (w_run A (w_init A) [SBatch [BPut [97] [49] 0]; SHold [97] [98] 0 0]) in
+  let F := faulty A kind c in
+  let '(w2, ob, _) := w_step F (mk_w (A := F) (w_in w1) (w_held w1) (w_hw w1)) (fault_op kind) in
+  let w3 : wstate A := mk_w (A := A) (w_in w2) (w_held w2) (w_hw w2) in
+  let '(_, ob2, _) := w_step A w3 (SGet [97]) in
+  (obs_class ob, match ob2 with OGet ROk v => beqb v [49] | _ => false end).
